@@ -1,4 +1,4 @@
-import Pkgcore.Model.C10Solver
+import Pkgcore.Spec.C10Solver
 /-!
 # C10 solver model — helper lemmas (frame of push/pop, forward checking, the search)
 -/
@@ -43,6 +43,11 @@ theorem getLast?_filter (p : Val → Bool) (l : List Val) (v : Val) (h : l.getLa
     (l.filter p).getLast? = some v := by
   obtain ⟨ys, rfl⟩ := List.getLast?_eq_some_iff.mp h
   simp [List.filter_append, hp]
+
+theorem nodup_reverse' {l : List Val} (h : l.Nodup) : l.reverse.Nodup := by
+  unfold List.Nodup
+  rw [List.pairwise_reverse]
+  exact List.Pairwise.imp (fun {a b} h => Ne.symm h) h
 
 /-! ## the store -/
 
@@ -675,12 +680,6 @@ theorem sound_solveRec (lt : Var → Var → Bool) (cons : List (Constraint Var 
 
 /-! ## following one total assignment through the search (completeness, first solution) -/
 
-/-- the keyword arguments of a constraint under a total assignment -/
-def restr (scope : List Var) (a : Var → Val) : Var → Option Val := fun x => if x ∈ scope then some (a x) else none
-
-/-- the (partial) assignments `asg` are part of the total assignment `a` -/
-def Agrees (asg : Asg Var Val) (a : Var → Val) : Prop := ∀ x v, asg.lookup x = some v → a x = v
-
 theorem unassigned_false_iff (asg : Asg Var Val) (x : Var) : unassigned asg x = false ↔ ∃ v, asg.lookup x = some v := by
   unfold unassigned
   cases asg.lookup x <;> simp
@@ -921,5 +920,159 @@ theorem first_solveRec {a : Var → Val} (lt : Var → Var → Bool) (cons : Lis
         cases hsol : (solveRec lt cons fuel st' ((var, a var) :: asg)).1 with
         | nil => rw [hsol] at hs; simp at hs
         | cons s0 rest => rw [hsol] at hs; simpa using hs
+
+
+/-! ## yielded assignments extend the current ones; enumeration order; no duplicates -/
+
+theorem LExt.refl (asg : Asg Var Val) : LExt asg asg := fun _ _ h => h
+
+theorem LExt.of_cons {asg s : Asg Var Val} {var : Var} {v : Val} (h : LExt ((var, v) :: asg) s)
+    (hu : unassigned asg var = true) : LExt asg s ∧ s.lookup var = some v := by
+  refine ⟨?_, h var v (by simp [List.lookup_cons])⟩
+  intro x w hl
+  apply h x w
+  have : ¬ (x = var) := by
+    intro e; subst e
+    unfold unassigned at hu; rw [hl] at hu; simp at hu
+  have h' : (x == var) = false := by simpa using this
+  simp [List.lookup_cons, h', hl]
+
+theorem ext_tryOne (rec : Store Var Val → Asg Var Val → List (Asg Var Val) × Store Var Val)
+    (hrec : ∀ st asg, ∀ s ∈ (rec st asg).1, LExt asg s) (cons : List (Constraint Var Val)) (var : Var)
+    (asg : Asg Var Val) (v : Val) (st : Store Var Val) :
+    ∀ s ∈ (tryOne rec cons var asg v st).1, LExt ((var, v) :: asg) s := by
+  intro s hs
+  unfold tryOne at hs
+  simp only at hs
+  split at hs
+  · exact hrec _ _ s hs
+  · simp at hs
+
+/-- **the order of one frame**: the solutions come in blocks, one block per value in the order the values are tried,
+and every solution of a block gives the variable that value -/
+theorem order_tryValues (rec : Store Var Val → Asg Var Val → List (Asg Var Val) × Store Var Val)
+    (hrec : ∀ st asg, ∀ s ∈ (rec st asg).1, LExt asg s) (cons : List (Constraint Var Val)) (var : Var)
+    (asg : Asg Var Val) : ∀ (vals : List Val) (st : Store Var Val),
+    ∃ blocks : List (List (Asg Var Val)), (tryValues rec cons var asg vals st).1 = blocks.flatten ∧
+      Blocks (fun v s => LExt ((var, v) :: asg) s) vals blocks
+  | [], st => ⟨[], rfl, .nil⟩
+  | v :: vs, st => by
+      obtain ⟨bs, h1, h2⟩ := order_tryValues rec hrec cons var asg vs (tryOne rec cons var asg v st).2
+      refine ⟨(tryOne rec cons var asg v st).1 :: bs, ?_, .cons (ext_tryOne rec hrec cons var asg v st) h2⟩
+      unfold tryValues
+      simp only [List.flatten_cons, h1]
+
+theorem forall2_blocks_mem {vals : List Val} {blocks : List (List (Asg Var Val))} {R : Val → Asg Var Val → Prop}
+    (h : Blocks R vals blocks) : ∀ s ∈ blocks.flatten, ∃ v ∈ vals, R v s := by
+  induction h with
+  | nil => intro s hs; simp at hs
+  | cons hb _ ih =>
+    intro s hs
+    simp only [List.flatten_cons, List.mem_append] at hs
+    rcases hs with hs | hs
+    · exact ⟨_, by simp, hb s hs⟩
+    · obtain ⟨v, hv, hr⟩ := ih s hs
+      exact ⟨v, List.mem_cons_of_mem _ hv, hr⟩
+
+theorem ext_solveRec (lt : Var → Var → Bool) (cons : List (Constraint Var Val)) :
+    ∀ (fuel : Nat) (st : Store Var Val) (asg : Asg Var Val), ∀ s ∈ (solveRec lt cons fuel st asg).1, LExt asg s
+  | 0, st, asg, s, hs => by
+      unfold solveRec at hs
+      split at hs
+      · simp only [List.mem_singleton] at hs; subst hs; exact LExt.refl _
+      · simp at hs
+  | fuel + 1, st, asg, s, hs => by
+      unfold solveRec at hs
+      split at hs
+      · simp only [List.mem_singleton] at hs; subst hs; exact LExt.refl _
+      · next var hsel =>
+        split at hs
+        · simp at hs
+        · next d hd =>
+          obtain ⟨bs, h1, h2⟩ := order_tryValues _ (ext_solveRec lt cons fuel) cons var asg d.vis.reverse st
+          rw [h1] at hs
+          obtain ⟨v, _, hr⟩ := forall2_blocks_mem h2 s hs
+          exact (hr.of_cons (selectVar_some hsel).1).1
+
+/-- every visible domain is duplicate free -/
+def NInv (st : Store Var Val) : Prop := ∀ x d, st.lookup x = some d → d.vis.Nodup
+
+theorem NInv.of_StEq {st st' : Store Var Val} (h : NInv st) (e : StEq st st') : NInv st' := by
+  intro x d' hl
+  obtain ⟨d, hd, p⟩ := e.dom_sub hl
+  exact p.nodup_iff.mp (h x d hd)
+
+theorem nodup_tryOne (K : List Var) (rec : Store Var Val → Asg Var Val → List (Asg Var Val) × Store Var Val)
+    (hrec : ∀ st asg, NInv st → st.map Prod.fst = K → List.Pairwise (Distinct K) (rec st asg).1)
+    (cons : List (Constraint Var Val)) (var : Var) (asg : Asg Var Val) (v : Val) (st : Store Var Val)
+    (hi : NInv st) (hK : st.map Prod.fst = K) : List.Pairwise (Distinct K) (tryOne rec cons var asg v st).1 := by
+  unfold tryOne
+  simp only
+  split
+  · refine hrec _ _ ?_ (by rw [keys_checkAll, keys_upd, hK])
+    intro x d' hl
+    have hf := checkAll_frame ((var, v) :: asg) (vcons cons var) (upd (fun x => x != var && unassigned asg x) Dom.pushState st) x
+    rw [hl, lookup_upd] at hf
+    cases hsx : st.lookup x with
+    | none => rw [hsx] at hf; exact hf.elim
+    | some d =>
+      rw [hsx] at hf
+      simp only [Option.map_some, ORel, FcRel] at hf
+      have hd := hi x d hsx
+      split at hf
+      · obtain ⟨H, _, p, _⟩ := hf
+        have hp : (d'.vis ++ H).Nodup := by
+          apply p.nodup_iff.mpr
+          split <;> simpa [Dom.pushState] using hd
+        exact (List.nodup_append.mp hp).1
+      · rw [hf]
+        split <;> simpa [Dom.pushState] using hd
+  · exact List.Pairwise.nil
+
+theorem nodup_tryValues (K : List Var) (rec : Store Var Val → Asg Var Val → List (Asg Var Val) × Store Var Val)
+    (hrec : ∀ st asg, NInv st → st.map Prod.fst = K → List.Pairwise (Distinct K) (rec st asg).1)
+    (hext : ∀ st asg, ∀ s ∈ (rec st asg).1, LExt asg s)
+    (hframe : ∀ st asg, StEq st (rec st asg).2) (hkeys : ∀ st asg, (rec st asg).2.map Prod.fst = st.map Prod.fst)
+    (cons : List (Constraint Var Val)) (var : Var) (hvar : var ∈ K) (asg : Asg Var Val) :
+    ∀ (vals : List Val) (st : Store Var Val), vals.Nodup → NInv st → st.map Prod.fst = K →
+    List.Pairwise (Distinct K) (tryValues rec cons var asg vals st).1
+  | [], st, _, _, _ => by simp [tryValues]
+  | v :: vs, st, hnd, hi, hK => by
+      have hnd' := List.nodup_cons.mp hnd
+      unfold tryValues
+      simp only
+      rw [List.pairwise_append]
+      refine ⟨nodup_tryOne K rec hrec cons var asg v st hi hK,
+        nodup_tryValues K rec hrec hext hframe hkeys cons var hvar asg vs _ hnd'.2
+          (hi.of_StEq (tryOne_frame rec hframe cons var asg v st)) (by rw [keys_tryOne rec hkeys, hK]), ?_⟩
+      intro s hs t ht
+      have h1 := ext_tryOne rec hext cons var asg v st s hs var v (by simp [List.lookup_cons])
+      obtain ⟨bs, e1, e2⟩ := order_tryValues rec hext cons var asg vs (tryOne rec cons var asg v st).2
+      rw [e1] at ht
+      obtain ⟨v', hv', hr⟩ := forall2_blocks_mem e2 t ht
+      have h2 := hr var v' (by simp [List.lookup_cons])
+      refine ⟨var, hvar, ?_⟩
+      rw [h1, h2]
+      intro e
+      simp only [Option.some.injEq] at e
+      subst e
+      exact hnd'.1 hv'
+
+theorem nodup_solveRec (lt : Var → Var → Bool) (cons : List (Constraint Var Val)) (K : List Var) :
+    ∀ (fuel : Nat) (st : Store Var Val) (asg : Asg Var Val), NInv st → st.map Prod.fst = K →
+    List.Pairwise (Distinct K) (solveRec lt cons fuel st asg).1
+  | 0, st, asg, _, _ => by
+      unfold solveRec; split <;> simp
+  | fuel + 1, st, asg, hi, hK => by
+      unfold solveRec
+      split
+      · simp
+      · next var hsel =>
+        split
+        · simp
+        · next d hd =>
+          exact nodup_tryValues K _ (nodup_solveRec lt cons K fuel) (ext_solveRec lt cons fuel) (solveRec_frame lt cons fuel)
+            (keys_solveRec lt cons fuel) cons var (hK ▸ (selectVar_some hsel).2) asg _ st
+            (nodup_reverse' (hi var d hd)) hi hK
 
 end Pkgcore.C10.Solver
